@@ -107,6 +107,15 @@ def check_C16(tier, seed):
                         outs[i].append(("peginator-cli", body[:-1] if body.endswith("\n") else body))
                     else:
                         outs[i].append(("peginator-cli", None))
+                    if i % 4 == 0:
+                        # the tool's --trace option only adds a log on stderr
+                        p = subprocess.run(cmd + ["--trace"], stdout=subprocess.PIPE, stderr=subprocess.DEVNULL, env=build.BASE_ENV, timeout=300)
+                        executions += 1
+                        if p.returncode == 0:
+                            body = strip_header(p.stdout.decode("utf-8", "replace"))
+                            outs[i].append(("peginator-cli --trace", body[:-1] if body.endswith("\n") else body))
+                        else:
+                            outs[i].append(("peginator-cli --trace", None))
                 # build-script helper
                 pref = prefixes[(i + di) % len(prefixes)]
                 dest = os.path.join(wd, "bs_%d_%d.rs" % (di, i))
